@@ -167,7 +167,9 @@ def check_data_path(ctx, key, body, adt, op):
         elif i_e[0] == "bin" and i_e[1].rstrip("!~") == "Sub" and is_head(i_e[2]) and strip_casts(i_e[3]) == ("const", 1): ok_idx = body.dominates(ib, hb) and hb != ib   # read buffer[head-1], then decrement
         else: ok_idx = False
         ctx.ob("R18.8", f"{key}|hands-out-the-top-element", ok_step and ok_idx, body.loc(ib), f"reads buffer[{show(i_e)}], head <- {show(step)}; required: the element at head - 1 (the last one pushed), head - 1")
-        somes = [(b, st) for b in sorted(body.reachable) for st in body.stmts(b) if st[0] == "A" and not st[1]["p"] and st[1]["l"] == 0 and st[2][0] == "Agg" and st[2][1][0] == "Adt" and st[2][1][2] == "Some"]
+        # (the answer may be parked in a local until after the unlock: `let popped = if empty { None } else { ..; Some(element) }; unlock(); popped`)
+        somes = [(b, st) for b in sorted(body.reachable) for st in body.stmts(b) if st[0] == "A" and not st[1]["p"] and st[2][0] == "Agg" and st[2][1][0] == "Adt" and st[2][1][2] == "Some"
+                 and body.locals[st[1]["l"]]["ty"] == body.locals[0]["ty"]]
         ok_pay = bool(somes) and all(any(isinstance(x, tuple) and ((x[:1] == ("call",) and len(x) > 3 and x[3] == ib) or (x[0] == "mem" and "buffer" in x[1])) for x in _walk_e(dg.expr(st[2][2][0]))) for (_, st) in somes)
         ctx.ob("R18.8", f"{key}|answers-some-of-that-element", ok_pay and returns_const(body, ib, "variant", 1), site, "the answer after the read is Some(the element read)")
 
